@@ -115,11 +115,56 @@ def _safe_cases(t):
         return False
 
 
-def window_functional(fl, cell):
-    """(ok, detail): `cell` is recomputed from the window on every delivered value: each value it takes on a delivering step
-    contains a fold over a window queue as it stands after this step, and depends on nothing but window queues and
-    constructor parameters (in particular not on itself or on another accumulator). Such a cell cannot carry anything older
-    than the window and has no add/subtract residue."""
+def _fold_over_window(fl, f_, qexits, conds):
+    """(queue, reason): the fold f_ = ('fold', L, key, init, nxt) is a pass over EVERY element of one window queue as this
+    update leaves it: a single carried variable, positions 0..len-1 (directly or by iterating the queue, in either direction),
+    elements read at the loop position only."""
+    L, key, init, nxt = f_[1], f_[2], f_[3], f_[4]
+    info = fl.m.up_vg.loops.get(L) or fl.m.last_vg.loops.get(L)
+    if info is None:
+        return None, 'loop record missing'
+    if len(info.get('carried', {})) != 1:
+        return None, 'the pass carries more than one variable from one element to the next'
+    gets = [x for x in subterms(nxt) if x[0] == 'get']
+    if not gets:
+        return None, 'the pass does not read elements'
+    it = info['iter']
+    while it[0] in ('copied', 'rev', 'enumerate'):
+        it = it[1]
+    i = ('idx', L)
+    for q, qe in qexits.items():
+        if qe is None:
+            continue
+        cand = [qe, fl.resolve(qe, conds)]
+        if it[0] == 'iter' and it[1] in cand:
+            return q, ''
+        if it[0] == 'range' and any(g[1] in cand for g in gets):
+            # every sequence read must be a window queue in its post-update state (several queues of equal length may be read
+            # side by side, e.g. values and their weights)
+            allc = []
+            for q2, qe2 in qexits.items():
+                if qe2 is not None:
+                    allc += [qe2, fl.resolve(qe2, conds)]
+            if not all(g[1] in allc for g in gets):
+                continue
+            n_ = ('len', gets[0][1])
+            one = lit(1, 'i')
+            ok_idx = all(g[2] == i or g[2] in (op('isub', op('isub', n_, one), i), op('isub', n_, op('iadd', i, one))) for g in gets)
+            H_ = fl.base.extended([c for c in conds if fl.structural(c)])
+            full = (it[1] == lit(0, 'i') or entails_h(H_, op('eq', it[1], lit(0, 'i')))) and not it[3] and all(
+                it[2] == ('len', g[1]) or entails_h(H_, op('eq', it[2], ('len', g[1]))) for g in gets)
+            if ok_idx and full:
+                return q, ''
+            return None, 'the pass covers positions %s..%s, not the whole window' % (tstr(it[1])[:20], tstr(it[2])[:30])
+    return None, 'the pass does not run over a window queue as this update leaves it'
+
+
+def window_functional(fl, cell, kind='sum'):
+    """(ok, detail): `cell` is recomputed from the window on every delivered value, as a plain (optionally weighted / filtered)
+    SUM over the window: each value it takes on a delivering step is, up to a division by a count/parameter,
+    fold(0; acc + term(element_i)) over every position of a window queue in its post-update state, where term reads elements
+    at position i only; it depends on nothing but window queues and constructor parameters. kind='count': an integer count of
+    the elements satisfying a predicate."""
     t = fl.m.up_fields.get(cell)
     if t is None:
         return False, 'never written'
@@ -144,18 +189,21 @@ def window_functional(fl, cell):
         deps = free_ins(val)
         if not deps <= allowed:
             return False, 'depends on state other than the window: %s' % sorted(deps - allowed)[:3]
-        # the pass must run over a window queue in its post-update state
-        seqs = [x[1] for f_ in folds for x in subterms(f_) if x[0] == 'get']
-        ok_seq = False
-        for q, qe in qexits.items():
-            if qe is None:
-                continue
-            if any(sq == qe or sq == fl.resolve(qe, conds) for sq in seqs):
-                ok_seq = True
-        if not ok_seq:
-            return False, 'the pass does not run over a window queue as this update leaves it'
+        for f_ in folds:
+            L, key, init, nxt = f_[1], f_[2], f_[3], f_[4]
+            mu = ('mu', L, key)
+            if not (init[0] == 'lit' and init[1] == 0):
+                return False, 'the pass starts from %s, not from 0' % tstr(init)[:40]
+            step = nxt
+            if step[0] == 'phi' and mu in (step[2], step[3]):
+                step = step[2] if step[3] == mu else step[3]       # filtered element: accumulator unchanged
+            if not (step[0] == 'op' and step[1] in ('add', 'iadd') and mu in step[2] and not any(x == mu for x in subterms([y for y in step[2] if y != mu][0]))):
+                return False, 'the pass is not an accumulation acc + term(element): %s' % tstr(nxt)[:70]
+            q_, why_ = _fold_over_window(fl, f_, qexits, conds)
+            if q_ is None:
+                return False, why_
         n += 1
-    return n > 0, 'recomputed by a pass over the current window on every delivered value (%d case(s)); depends on the window and constructor parameters only' % n
+    return n > 0, 'recomputed as a sum over every element of the current window on each delivered value (%d case(s)); depends on the window and constructor parameters only' % n
 
 
 def check_accumulators(F, R, names_counts, rule_prefix=''):
@@ -287,10 +335,27 @@ def check_welford(F, R, name='WelfordOnline'):
                     why = 'in %s a correction is divided by %s, which is not the sample count after that operation (count after the update: %s)' % (
                         mc, [tstr(d)[:40] for d in set(divs)], tstr(cnt_exit)[:60])
     if n_checked == 0 and not mean_cells:
-        # alternative implementation: the statistics are recomputed from the window by passes over it (two-pass algorithm)
+        # alternative implementation: the statistics are recomputed from the window by passes over it (two-pass algorithm):
+        # some cell is  Σ window / T(number of elements in the window)  (the mean), the others are sums over the window
         wf = [(c, window_functional(fl, c)) for c in float_cells(fl) if c not in fl.B.buffers]
         if wf and all(ok_ for _, (ok_, _) in wf):
-            R.ob('W5-divisor', name, True, 'no incremental mean corrections: %s are recomputed by passes over the current window' % [c for c, _ in wf], v.file)
+            okdiv = False
+            whyd = 'no cell is the window sum divided by the number of elements in the window'
+            for c, _ in wf:
+                for conds, leaf in fl.cell_cases(c, deep=False):
+                    if not fl.delivering(conds):
+                        continue
+                    val = leaf[1] if leaf[0] == 'some' else leaf
+                    if val[0] == 'op' and val[1] == 'div' and val[2][0][0] == 'fold' and val[2][1][0] == 'op' and val[2][1][1] == 'from_int':
+                        D = val[2][1][2][0]
+                        seqs = {x[1] for x in subterms(val[2][0]) if x[0] == 'get'}
+                        H_ = fl.base.extended([c_ for c_ in conds if fl.structural(c_)])
+                        if seqs and all(entails_h(H_, op('eq', D, ('len', sq))) for sq in seqs):
+                            okdiv = True
+                        else:
+                            whyd = 'the window sum in %s is divided by %s, which is not the number of elements summed' % (c, tstr(D)[:40])
+            R.ob('W5-divisor', name, okdiv, 'no incremental mean corrections: %s are recomputed by passes over the current window; the mean divides by the number of elements' % [c for c, _ in wf]
+                 if okdiv else whyd, v.file)
             return
     R.ob('W5-divisor', name, good and n_checked > 0, 'every (x − mean)/k correction uses k = number of samples after that operation (%d cases)' % n_checked if good else why, v.file)
 
